@@ -51,7 +51,22 @@ def script(m, regs, keys, consts, clear_constants):
   for name in consts:
     attempt('const ' + name, lambda name=name: m.canon(gin.query_parameter(name)))
   attempt('constants', lambda: sorted(k for k, _ in gin.config._CONSTANTS.items()))
-  attempt('bind-after', lambda: gin.bind_parameter(regs[0]['sel'] + '.' + (ginm.sig_names(regs[0]['sig']) or ['a'])[0], 1))
+  p0 = regs[0]['sel'] + '.' + (ginm.sig_names(regs[0]['sig']) or ['a'])[0]
+  attempt('bind-after', lambda: gin.bind_parameter(p0, 1))
+  # names that were (or still are) constants, used as ordinary macros in a config parsed now: what %NAME means must depend
+  # on the constants that exist NOW, exactly as in a fresh process
+  w0 = m.wrappers.get(regs[0]['sel'])
+  for nm in sorted({n.split('.')[-1] for n in consts if n != 'gin.REQUIRED'} | {'mm'}):
+    attempt('macro-def ' + nm, lambda nm=nm: gin.parse_config('%s = 41' % nm))
+    attempt('macro-use ' + nm, lambda nm=nm: gin.parse_config('%s = %%%s' % (p0, nm)))
+    attempt('macro-stored ' + nm, lambda: m.canon(gin.query_parameter(p0)))
+    if w0 is not None and ginm.sig_names(regs[0]['sig']):
+      base = m.counter
+
+      def call0(base=base):
+        r = w0()
+        return [T('Ret', r.sel, r.n - base) if isinstance(r, ginm.Ret) else m.canon(r), m.log[-1][2]]
+      attempt('macro-call ' + nm, call0)
   return out
 
 
@@ -72,6 +87,11 @@ class ClearEngine(c12.LockEngine):
                               ['constant', 'K.Y', ['obj', 'o1']], ['finalize'], ['bind', 'f.a', ['i', 4]],
                               ['clear', False], ['locked'], ['dumpconfig'], ['dumpoper'], ['call', 'm.f', [], []],
                               ['query', 'K.Y'], ['clear', True], ['query', 'K.Y'], ['query', 'gin.REQUIRED']]},
+        {'regs': [f], 'ops': [['constant', 'a.K', ['i', 5]], ['pbind', 'f.a', ['macro', 'K']], ['pbind', 'f.b', ['macro', 'a.K']],
+                              ['call', 'm.f', [], []], ['clear', True], ['locked'], ['dumpconfig']]},
+        {'regs': [f], 'ops': [['constant', 'Y', ['i', 5]], ['constant', 'x.Z', ['i', 6]], ['pbind', 'f.a', ['macro', 'Y']],
+                              ['pbind', 'f.b', ['macro', 'Z']], ['clear', False], ['pbind', 'f.a', ['macro', 'Y']], ['clear', True],
+                              ['locked'], ['dumpconfig']]},
     ]
 
   def gen(self, rng, tier):
@@ -91,6 +111,12 @@ class ClearEngine(c12.LockEngine):
         body = [['constant', rng.choice(consts), ginm.gen_plain(rng, 0) if rng.random() < 0.7 else ['obj', 'o1']]
                 for _ in range(rng.randint(1, 3))]
         ops += [['interactive', body]] if rng.random() < 0.4 else body
+        if rng.random() < 0.5:
+          # a config that USES one of the constants (by any dotted suffix of its name) is parsed while it exists
+          c = rng.choice(regs)
+          parts = rng.choice(body)[1].split('.')
+          if c['sig']['args']:
+            ops.append(['pbind', c['sel'] + '.' + rng.choice(c['sig']['args']), ['macro', '.'.join(parts[rng.randrange(len(parts)):])]])
       elif r < 0.85:
         c = rng.choice(regs)
         others = [x for x in regs if x is not c] or [c]
